@@ -10,7 +10,7 @@ VERIF = os.path.dirname(os.path.dirname(os.path.abspath(__file__)))
 T_PROOF = "Lean 4 machine-checked proof about an executable model"
 CLAIMED = {
     "C01": (T_PROOF + ": Pratt print/parse round trip over the extracted binding-power table, evaluator laws and fuel monotonicity over the evaluator model; correspondence of lexer, parser, resolver and evaluator models with the real pipeline on generated programs",
-            "Theorems (no sorry/axioms) pin precedence/associativity for all expressions, short-circuit and left-to-right evaluation, truthiness, loop unrolling, call/return and concatenation/interpolation laws for all terms, states and fuel; the models are tied to the code by regenerated tables (keywords, binding powers, builtins, type rules) and differential runs of the Lean pipeline against the real interpreter.",
+            "Theorems (no sorry/axioms): for every text the front-end model accepts iff there is no lexical / syntax diagnostic and the parsed tree satisfies the documented well-formedness judgement (c01_accepted_iff_clean_and_valid), a valid canonical program is never rejected in any layout and runs like its tree (c01_valid_never_rejected, c01_accepted_runs_like_the_tree); theorems pin precedence/associativity for all expressions, short-circuit and left-to-right evaluation, truthiness, loop unrolling, call/return and concatenation/interpolation laws for all terms, states and fuel; the models are tied to the code by regenerated tables (keywords, binding powers, builtins, type rules) and differential runs of the Lean pipeline against the real interpreter.",
             "Trusted: Lean kernel, extractors, harness/driver; numbers are an abstract NumOps structure in theorems (the driver instantiates IEEE doubles, validated against Rust each run); std string functions assumed.",
             "DESIGN.md §5 C01"),
     "C02": (T_PROOF + ": safety invariant of an abstract-interpretation memory evaluator (handles/regions, oracle-resolved control flow) for every program, oracle and fuel; tie by frame/no-frame differential and hook event traces",
